@@ -1,7 +1,8 @@
 """C16 — deterministic evaluation order and first-failure reporting (exact trace comparison against the model)."""
+import inspect
 from typing import Any, Dict, List
 
-from vkit import gen, prog, runner
+from vkit import gen, probe, prog, runner
 from vkit.model import Model
 
 ID = "C16"
@@ -377,7 +378,98 @@ def run_recreated(w) -> None:
         loaded.unload()
 
 
+SAME_PREDICATE_SOURCE = '''
+import icontract
+
+
+class BaseError(Exception):
+    pass
+
+
+class MidError(Exception):
+    pass
+
+
+class DerivedError(Exception):
+    pass
+
+
+def is_even(x):
+    HUB.cond("is_even", {{"x": x}})
+    return x % 2 == 0
+
+
+def is_div3(x):
+    HUB.cond("is_div3", {{"x": x}})
+    return x % 3 == 0
+
+
+class K(icontract.DBC):
+    @icontract.require(is_even, error=BaseError)
+    {a}def m(self, x):
+        HUB.body("K.m", {{}})
+        return x
+
+
+class L(K):
+    @icontract.require(is_div3, error=MidError)
+    {a}def m(self, x):
+        HUB.body("L.m", {{}})
+        return x
+
+
+class M(L):
+    """States the predicate of K again, with an error of its own: a third group, tried last."""
+    @icontract.require(is_even, error=DerivedError)
+    {a}def m(self, x):
+        HUB.body("M.m", {{}})
+        return x
+
+
+class N(K):
+    @icontract.require(is_even, error=DerivedError)
+    {a}def m(self, x):
+        HUB.body("N.m", {{}})
+        return x
+'''
+
+
+def run_same_predicate_groups(w) -> None:
+    """Precondition groups of a hierarchy which use the very same predicate FUNCTION in different contracts (each with an error of its
+    own): every group is tried in order, and when none holds the error is that of the first falsy condition of the LAST group tried."""
+    for is_async in (False, True):
+        loaded = prog.load_source(SAME_PREDICATE_SOURCE.format(a="async " if is_async else ""), w.scratch())
+        mod, hub = loaded.module, loaded.hub
+        try:
+            for cname, x, want_events, want_outcome in (
+                    ("M", 5, ["is_even", "is_div3", "is_even"], "DerivedError"), ("M", 3, ["is_even", "is_div3", "M.m"], "returned"),
+                    ("M", 4, ["is_even", "M.m"], "returned"), ("L", 5, ["is_even", "is_div3"], "MidError"),
+                    ("N", 5, ["is_even", "is_even"], "DerivedError"), ("N", 4, ["is_even", "N.m"], "returned"), ("K", 5, ["is_even"], "BaseError")):
+                hub.reset()
+                try:
+                    res = getattr(mod, cname)().m(x)
+                    if inspect.iscoroutine(res):
+                        res = probe.drive(res)
+                    outcome = "returned"
+                except BaseException as err:  # pylint: disable=broad-except
+                    outcome = type(err).__name__
+                events = [e.id for e in hub.events]
+                w.count("calls")
+                w.count("same_predicate_group_calls")
+                w.count("events_compared", len(events))
+                w.case(("same-predicate-groups", cname, x, is_async))
+                if events != want_events or outcome != want_outcome:
+                    w.violation("C16/wrong-contract-reported", "{}().m({}) [{}]: evaluated {} and ended with {} (expected {} and {}): each group is "
+                                "tried in order, the error is that of the last group tried".format(
+                                    cname, x, "async" if is_async else "sync", events, outcome, want_events, want_outcome),
+                                {"same_predicate": cname, "x": x})
+        finally:
+            loaded.unload()
+
+
 def run(w) -> None:
+    if w.shard == 2 % w.nshards:
+        run_same_predicate_groups(w)
     w.exhaustive = False
     if w.shard == 0:
         run_ctor_chain(w)
@@ -397,6 +489,9 @@ def replay(case, w) -> None:
         return
     if "recreated" in case:
         run_recreated(w)
+        return
+    if "same_predicate" in case:
+        run_same_predicate_groups(w)
         return
     spec = case["prog"]
     model = Model(spec)
